@@ -44,29 +44,46 @@ using vt::make_quadratic;
 using vt::make_maxlin;
 using vt::random_x0;
 
-// draw some of the solver-specific parameters from their declared domains; returns true if anything was changed
-bool shake(solver_t& solver, vt::Rng& rng)
+// draw some of the parameters of a solver (or of a line-search object) from their declared domains, sometimes the closed ends of these
+// domains (e.g. gsample's miu0 = 0, lsearch_beta = 0, theta = 1, sgm::power in {0.5, 1}); returns true if anything was changed
+bool shake(configurable_t& solver, vt::Rng& rng, const int den = 3)
 {
     bool changed = false;
+    const auto closed = [](const LEorLT& comp) { return std::holds_alternative<LE_t>(comp); };
     for (const auto& param0 : solver.parameters())
     {
         const auto& name = param0.name();
-        if (name == "solver::epsilon" || name == "solver::max_evals" || !rng.coin(1, 3))
+        if (name == "solver::epsilon" || name == "solver::max_evals" || name == "lsearch0::epsilon" || name == "lsearchk::tolerance" || !rng.coin(1, den))
         {
             continue;
         }
         auto& param = solver.parameter(name);
         std::visit(overloaded{[&](const parameter_t::irange_t& r)
                               {
-                                  auto lo = r.m_min + (std::holds_alternative<LE_t>(r.m_mincomp) ? 0 : 1);
-                                  auto hi = r.m_max - (std::holds_alternative<LE_t>(r.m_maxcomp) ? 0 : 1);
+                                  auto lo = r.m_min + (closed(r.m_mincomp) ? 0 : 1);
+                                  auto hi = r.m_max - (closed(r.m_maxcomp) ? 0 : 1);
                                   // keep the sizes the property talks about (bundle 2..100) and run times sane
                                   hi = std::min<int64_t>(hi, std::max<int64_t>(lo, std::min<int64_t>(100, 4 * std::max<int64_t>(1, r.m_value))));
-                                  param   = rng.range(lo, hi);
+                                  if (name == "lsearchk::max_iterations" && rng.coin())
+                                  {
+                                      param = rng.pick(std::vector<int64_t>{1, 2, 3, 5, 10, 40, 1000, 10000});
+                                  }
+                                  else
+                                  {
+                                      param = rng.coin(1, 5) ? (rng.coin() ? lo : hi) : rng.range(lo, hi);
+                                  }
                                   changed = true;
                               },
                               [&](const parameter_t::frange_t& r)
                               {
+                                  // a closed end of the domain (if there is one)
+                                  if ((closed(r.m_mincomp) || closed(r.m_maxcomp)) && rng.coin(1, 4))
+                                  {
+                                      const auto use_min = closed(r.m_mincomp) && (!closed(r.m_maxcomp) || rng.coin());
+                                      param   = use_min ? r.m_min : r.m_max;
+                                      changed = true;
+                                      return;
+                                  }
                                   const auto t = rng.uniform(0.05, 0.95);
                                   const auto v = rng.coin() ? r.m_value + t * (std::min(r.m_max, 4.0 * std::fabs(r.m_value) + 1e-3) - r.m_value)
                                                             : r.m_value + t * (std::max(r.m_min, r.m_value / 4.0) - r.m_value);
@@ -78,8 +95,15 @@ bool shake(solver_t& solver, vt::Rng& rng)
                               },
                               [&](const parameter_t::fprange_t& r)
                               {
-                                  const auto v1 = r.m_value1 + rng.uniform(0.1, 0.9) * (r.m_min - r.m_value1) * 0.5;
-                                  const auto v2 = r.m_value2 + rng.uniform(0.1, 0.9) * (std::min(r.m_max, 10.0 * r.m_value2) - r.m_value2) * 0.5;
+                                  auto v1 = r.m_value1 + rng.uniform(0.1, 0.9) * (r.m_min - r.m_value1) * 0.5;
+                                  auto v2 = r.m_value2 + rng.uniform(0.1, 0.9) * (std::min(r.m_max, 10.0 * r.m_value2) - r.m_value2) * 0.5;
+                                  if (closed(r.m_valcomp) && rng.coin(1, 4))
+                                  {
+                                      v1 = v2 = rng.uniform(v1, v2); // both values equal where the domain allows it
+                                      param   = std::make_tuple(v1, v2);
+                                      changed = true;
+                                      return;
+                                  }
                                   if (std::isfinite(v1) && std::isfinite(v2) && r.m_min < v1 && v1 < v2 && v2 < r.m_max)
                                   {
                                       param   = std::make_tuple(v1, v2);
@@ -97,10 +121,23 @@ bool shake(solver_t& solver, vt::Rng& rng)
     return changed;
 }
 
+// line-search objects with their own parameters drawn from their domains, handed over through solver_t::lsearch0 / lsearchk(const object&)
+// (lsearchk::max_iterations, lsearch0::*, the interpolation modes ... are otherwise always at their defaults); empty id = keep the kind
+void configure_lsearch(solver_t& solver, vt::Rng& rng, const std::string& ls0_id, const std::string& lsk_id)
+{
+    auto ls0 = ls0_id.empty() ? solver.lsearch0().clone() : lsearch0_t::all().get(ls0_id);
+    auto lsk = lsk_id.empty() ? solver.lsearchk().clone() : lsearchk_t::all().get(lsk_id);
+    shake(*ls0, rng, 2);
+    shake(*lsk, rng, 2);
+    solver.lsearch0(*ls0);
+    solver.lsearchk(*lsk);
+}
+
 struct run_cfg_t
 {
     bool   budget{true};  // default line-search related settings: the budget clause applies
     bool   quad{false};   // the C01 convergence clause applies
+    int    precalls{0};   // evaluations made through the counting wrapper BEFORE minimize(): they do not belong to the run
     double eps{1e-8};
     const quad_info_t* qinfo{nullptr};
 };
@@ -113,6 +150,16 @@ void run(const solver_t& solver, const function_t& inner, const vector_t& x0, co
     const auto              max_evals = solver.parameter("solver::max_evals").value<int64_t>();
     const auto              ls        = solver.type() == solver_type::line_search;
     const auto              n         = inner.size();
+
+    // the wrapper is not always fresh (solver_t::minimize must report the evaluations of THIS run only): the wrapper's own log and the
+    // logger lines are read from the call of minimize() on
+    for (int k = 0; k < rc.precalls; ++k)
+    {
+        vector_t g(n);
+        (k % 2 == 0) ? function.vgrad(x0, g) : function.vgrad(x0);
+    }
+    function.reset();
+    stream.clear();
 
     g_case.store(icase);
     g_started_ms.store(now_ms());
@@ -304,6 +351,16 @@ int main(int argc, char* argv[])
         run_cfg_t rc;
         rc.eps    = eps;
         rc.budget = !(rng.coin(1, 3) && shake(*solver, rng));
+        std::string lsdesc;
+        if (solver->type() == solver_type::line_search && rng.coin(1, 4))
+        {
+            // configured line-search objects (of the solver's own kinds, or of any other kind)
+            const auto other = rng.coin(1, 3);
+            configure_lsearch(*solver, rng, other ? rng.pick(ls0_ids) : std::string(), other ? rng.pick(lsk_ids) : std::string());
+            rc.budget = false;
+            lsdesc    = " (configured line search " + solver->lsearch0().type_id() + "/" + solver->lsearchk().type_id() + ")";
+        }
+        rc.precalls = rng.coin(1, 4) ? static_cast<int>(rng.range(1, 5)) : 0;
         std::unique_ptr<function_t> own;
         const function_t*           function = nullptr;
         const auto                  kind     = rng.range(0, 9);
@@ -325,7 +382,7 @@ int main(int argc, char* argv[])
         }
         const auto radius = std::pow(10.0, rng.uniform(-3.0, 1.0));
         run(*solver, *function, random_x0(rng, function->size(), radius), rc, icase++,
-            id + " on " + function->name() + " evals=" + std::to_string(evals) + (rc.budget ? "" : " (shaken parameters)"));
+            id + " on " + function->name() + " evals=" + std::to_string(evals) + (rc.budget ? "" : " (shaken parameters)") + lsdesc);
     }
     // (b) C01 truthfulness: line-search solvers x lsearch0 x lsearchk x tolerances x epsilon on smooth functions
     std::vector<std::string> ls_ids;
@@ -344,15 +401,27 @@ int main(int argc, char* argv[])
         solver->parameter("solver::epsilon")   = eps;
         solver->parameter("solver::max_evals") = rng.pick(std::vector<int64_t>{30, 100, 300, 1000, 3000});
         const auto ls0 = rng.pick(ls0_ids), lsk = rng.pick(lsk_ids);
-        solver->lsearch0(ls0);
-        solver->lsearchk(lsk);
+        // the solver's own parameters (lbfgs::history, quasi::initialization, sr1::r, cgd::orthotest, cgdN::eta ...) anywhere in their domains:
+        // a `converged` status must be truthful for any of them
+        const auto shaken = rng.coin() && shake(*solver, rng, 2);
+        const auto configured = rng.coin();
+        if (configured)
+        {
+            configure_lsearch(*solver, rng, ls0, lsk);
+        }
+        else
+        {
+            solver->lsearch0(ls0);
+            solver->lsearchk(lsk);
+        }
         // (c1, c2) anywhere in the parameter domain 0 < c1 < c2 < 1: mostly log-uniform small c1, sometimes c1 close to 1 or c2 close to c1 / 1
         const auto c1 = rng.coin(1, 5) ? rng.uniform(0.3, 0.98) : std::pow(10.0, rng.uniform(-8.0, -0.5));
         const auto c2 = c1 + (1.0 - c1) * (rng.coin(1, 5) ? rng.pick(std::vector<double>{1e-3, 0.999}) : rng.uniform(0.05, 0.95));
         solver->parameter("solver::tolerance") = std::make_tuple(c1, c2);
         run_cfg_t rc;
-        rc.eps    = eps;
-        rc.budget = false;
+        rc.eps      = eps;
+        rc.budget   = false;
+        rc.precalls = rng.coin(1, 4) ? static_cast<int>(rng.range(1, 5)) : 0;
         const function_t* pfunction = smooth_functions[static_cast<size_t>(rng.range(0, static_cast<int64_t>(smooth_functions.size()) - 1))].get();
         for (int tries = 0; tries < 8 && rng.coin(); ++tries)
         {
@@ -365,7 +434,7 @@ int main(int argc, char* argv[])
         }
         const auto& function = *pfunction;
         run(*solver, function, random_x0(rng, function.size(), std::pow(10.0, rng.uniform(-2.0, 1.0))), rc, icase++,
-            id + "/" + ls0 + "/" + lsk + " on " + function.name());
+            id + "/" + ls0 + "/" + lsk + " on " + function.name() + (shaken ? " (shaken parameters)" : "") + (configured ? " (configured line search)" : ""));
     }
     // (c) C01 convergence: lbfgs / bfgs on well-conditioned quadratics at epsilon = 1e-8
     for (int64_t i = 0; i < nquad; ++i)
@@ -383,9 +452,10 @@ int main(int argc, char* argv[])
         const auto  hard     = static_cast<int>(rng.pick(std::vector<int64_t>{0, 0, 0, 1, 2, 3}));
         const auto  function = make_quadratic(rng, hard == 3 ? 16 : (rng.coin(1, 3) ? rng.range(13, 16) : rng.range(1, 16)), qinfo, hard);
         run_cfg_t   rc;
-        rc.eps   = 1e-8;
-        rc.quad  = true;
-        rc.qinfo = &qinfo;
+        rc.eps      = 1e-8;
+        rc.quad     = true;
+        rc.qinfo    = &qinfo;
+        rc.precalls = rng.coin(1, 4) ? static_cast<int>(rng.range(1, 5)) : 0;
         auto x0 = random_x0(rng, function->size(), 10.0);
         if (hard == 3)
         {
